@@ -1,13 +1,16 @@
 """bpset family (DAP breakpoint sets): a deterministic single-threaded program whose breakpoint-relevant events
 per loop iteration are known: entry instruction of fa/fb, first body line of fa/fb/gen (function breakpoints land
 there), a later body line in each (source breakpoints), three instantiations of the generic function, and one
-inlined helper used from the loop."""
+inlined helper used from the loop. The loop publishes its iteration number and parity in two globals (ZQ_ITER,
+ZQ_FLAG) that conditions and log messages can name from any frame."""
 
 
 def gen(seed, iters=6):
     L = []
     e = L.append
     e('#![allow(dead_code, unused)]')
+    e('#[no_mangle] pub static mut ZQ_FLAG: bool = false;')
+    e('#[no_mangle] pub static mut ZQ_ITER: u64 = 0;')
     lines = {}
     for name in ('fa', 'fb'):
         e('#[inline(never)]')
@@ -52,6 +55,7 @@ def gen(seed, iters=6):
     e('    let mut i = 0u64;')
     e(f'    while i < {iters} {{')
     e('        let flag = i % 2 == 0;')
+    e('        unsafe { std::ptr::write_volatile(&raw mut ZQ_FLAG, flag); std::ptr::write_volatile(&raw mut ZQ_ITER, i); }')
     e('        acc = acc.wrapping_add(fa(i, flag));')
     e('        acc = acc.wrapping_add(fb(i, flag));')
     e('        acc = acc.wrapping_add(gen(i as u8, flag));')
@@ -64,5 +68,6 @@ def gen(seed, iters=6):
     e('}')
     # events of one iteration, in execution order
     order = ['I_fa', 'F_fa', 'L_fa', 'I_fb', 'F_fb', 'L_fb', 'F_gen', 'L_gen', 'F_gen', 'L_gen', 'F_gen', 'L_gen', 'L_inl']
-    side = {'lines': lines, 'iters': iters, 'order': order}
+    # `sv` runs once before the loop
+    side = {'lines': lines, 'iters': iters, 'order': order, 'prefix': ['L_sv']}
     return '\n'.join(L) + '\n', side
